@@ -31,7 +31,7 @@ stores pre-filled with colliding names while an application thread mutates and r
 re-parse of every produced reply. level 2 (real sockets, sampled): sync and tokio SimpleMdnsResponder, ServiceDiscovery (without on_discovery, with it, and with it after the application dropped the receiver) and OneShotMdnsResolver run in-process on \
 loopback multicast; batches of datagrams are followed by marker queries (unicast-response bit, unique names) whose replies prove each loop consumed the batch; every reply datagram received from a real \
 service (marker replies, and two replies of about 12.8 KB built from 60 TXT records) must be a well-formed DNS message for Packet::parse and the envelope walker; monitors: global panic hook \
-(library threads and tokio workers), lock-health probes through the public API afterwards. A missing marker reply without a recorded panic is inconclusive; three consecutive silent rounds of one service while others answer are a stopped loop; if level 2 cannot start the run is inconclusive. non-trivial = datagram that is not a \
+(library threads and tokio workers), lock-health probes through the public API afterwards, each on its own thread and required to return within 10 s. The traffic includes responses about the very name the resolvers ask for (asked and other types, valid / empty / odd RDATA) and, for every watched service, a peer's announcement followed later by its goodbye (TTL 0). A missing marker reply without a recorded panic is inconclusive; three consecutive silent rounds of one service while others answer are a stopped loop; if level 2 cannot start the run is inconclusive. non-trivial = datagram that is not a \
 well-formed message (parser rejects it) or carries a hostile name; distinct = hash of bytes",
         assumptions: &["level 1 re-enacts the private loop bodies and cannot see edits inside them; level 2 sees them for the sampled datagrams", "loopback multicast on 224.0.0.251:5353 must be available for level 2 (else the run says inconclusive)"],
         exhaustive: false,
@@ -450,6 +450,47 @@ fn probe(ctx: &mut Ctx, sock: &UdpSocket, group: &SocketAddr, m: &Marker, id: u1
     }
 }
 
+/// A response (id 0, answers > 0) whose records are owned by the name the level-2 resolvers query.
+fn named_bait(ctx: &Ctx, idx: u64) -> Vec<u8> {
+    let mut r = ctx.rng("named-bait", idx);
+    let owner: NameM = vec![b"nobody-home".to_vec(), b"local".to_vec()];
+    let mut m = MsgM { id: 0, flags: 0x8400, ..Default::default() };
+    for _ in 0..r.usize(1, 4) {
+        let rtype = *r.pick(&[33u16, 33, 33, 1, 28, 16, 12, 47, 65280]);
+        let rd: Vec<u8> = match (rtype, r.below(4)) {
+            (_, 0) => vec![],                                                   // RDLENGTH 0
+            (33, 1) => vec![0, 0, 0, 0, 0, 80, 0],                              // SRV with the root as target
+            (33, _) => { let mut v = vec![0, 1, 0, 2, 0x1F, 0x90]; v.extend_from_slice(&[11]); v.extend_from_slice(b"nobody-home"); v.extend_from_slice(&[5]); v.extend_from_slice(b"local"); v.push(0); v }
+            (1, _) => vec![127, 0, 0, r.u8()],
+            (28, _) => { let mut v = vec![0u8; 16]; v[15] = r.u8(); v }
+            (16, _) => vec![3, b'k', b'=', b'v'],
+            (12, _) => vec![1, b'x', 0],
+            _ => { let n = r.usize(1, 6); r.bytes(n) }
+        };
+        let class = if r.chance(1, 4) { 0x8001 } else { 1 };
+        let sec = if r.chance(3, 4) { 0 } else { 2 };
+        m.secs[sec].push(RRM::new(owner.clone(), rtype, class, *r.pick(&[0u32, 1, 120, 0x8000_0000]), Rd::Opaque(rd)));
+    }
+    if m.secs[0].is_empty() {
+        let rec = m.secs[2].pop().unwrap();
+        m.secs[0].push(rec);
+    }
+    encode(&m, if r.bool() { Plan::None } else { Plan::Canonical }).bytes
+}
+
+/// What a peer "peer1" of `service` puts on the wire when it announces itself (ttl 120) or says goodbye (ttl 0).
+fn peer_announcement(service: &str, ttl: u32) -> Vec<u8> {
+    let info = InstanceInformation::new("peer1".into()).with_ip_address(Ipv4Addr::new(10, 9, 8, 7).into()).with_port(8080).with_attribute("k".into(), Some("v".into()));
+    let full = match Name::new(&format!("peer1.{}", service)) { Ok(n) => n.into_owned(), Err(_) => return vec![] };
+    let mut p = Packet::new_reply(0);
+    if let Ok(recs) = info.into_records(&full, ttl) {
+        for rr in recs {
+            p.answers.push(rr.into_owned());
+        }
+    }
+    p.build_bytes_vec_compressed().unwrap_or_default()
+}
+
 fn level2(ctx: &mut Ctx) {
     use simple_mdns::{async_discovery, sync_discovery};
     let group: SocketAddr = "224.0.0.251:5353".parse().unwrap();
@@ -570,7 +611,8 @@ fn level2(ctx: &mut Ctx) {
         res.set_query_timeout(Duration::from_millis(300));
         while !ars.load(Ordering::Relaxed) {
             let _ = res.query_service_address("nobody-home.local").await;
-            queries += 1;
+            let _ = res.query_service_address_and_port("nobody-home.local").await;
+            queries += 2;
         }
         queries
     });
@@ -589,7 +631,16 @@ fn level2(ctx: &mut Ctx) {
         for _ in 0..batch {
             idx += 1;
             let fam = match idx % 10 { 0 | 1 => "short", 2 => "corpus", 3 | 4 => "hostile-response", 5 => "hostile-query", 6 => "valid", 7 => "resolver-bait", _ => "havoc" };
-            let mut d = if fam == "resolver-bait" {
+            let mut d = if fam == "resolver-bait" && idx % 20 == 7 {
+                // responses about the very name the resolvers are asking for: records of the asked and of other types,
+                // with valid, empty and odd RDATA (what the answer scan of the resolver has to cope with)
+                named_bait(ctx, idx)
+            } else if fam == "valid" && idx % 40 == 6 {
+                // a peer of one of the watched services announces itself, and (next time round) says goodbye with TTL 0
+                let which = ((idx / 40) % 5) as usize;
+                let goodbye = (idx / 200) % 2 == 1;
+                peer_announcement(&svc_names[which], if goodbye { 0 } else { 120 })
+            } else if fam == "resolver-bait" {
                 // response with id 0 and answers > 0 so that the resolver's peeks let it through
                 let mut b = datagram(ctx, if idx % 3 == 0 { "havoc" } else { "hostile-response" }, idx);
                 if b.len() >= 12 { b[0] = 0; b[1] = 0; b[2] |= 0x80; if b[6] == 0 && b[7] == 0 { b[7] = 1; } }
@@ -776,18 +827,36 @@ fn level2(ctx: &mut Ctx) {
         }
     }
     // ---- lock-health probes through the public API ---------------------------------------------------
-    let probes: Vec<(&str, Result<(), monitor::PanicRec>)> = vec![
-        ("SimpleMdnsResponder::add_resource", monitor::guard(|| responder.add_resource(ResourceRecord::new(Name::new("probe.local").unwrap().into_owned(), CLASS::IN, 1, RData::A(A { address: 1 }))))),
-        ("SimpleMdnsResponder::remove_resource_record", monitor::guard(|| responder.remove_resource_record(ResourceRecord::new(Name::new("probe.local").unwrap().into_owned(), CLASS::IN, 1, RData::A(A { address: 1 }))))),
-        ("ServiceDiscovery::get_known_services", monitor::guard(|| { let _ = disc_a.get_known_services(); let _ = disc_b.get_known_services(); })),
-        ("ServiceDiscovery::announce", monitor::guard(|| { disc_a.announce(false); disc_b.announce(false); })),
-        ("tokio SimpleMdnsResponder::add_resource", monitor::guard(|| rt.block_on(aresponder.add_resource(ResourceRecord::new(Name::new("probe.local").unwrap().into_owned(), CLASS::IN, 1, RData::A(A { address: 1 })))))),
-        ("tokio ServiceDiscovery::get_known_services", monitor::guard(|| { if let Ok(d) = &adisc { let _ = rt.block_on(d.get_known_services()); } })),
+    // each probe runs on a thread of its own and must come back: a lock left held by a library thread (or taken twice by
+    // it) shows as a call that never returns
+    let responder = Arc::new(std::sync::Mutex::new(responder));
+    let aresponder = Arc::new(tokio::sync::Mutex::new(aresponder));
+    let disc_a = Arc::new(disc_a);
+    let disc_b = Arc::new(disc_b);
+    let disc_d = Arc::new(_disc_d);
+    let adisc = Arc::new(adisc);
+    let adisc_e = Arc::new(_adisc_e);
+    let handle = rt.handle().clone();
+    let probe_rr = || ResourceRecord::new(Name::new("probe.local").unwrap().into_owned(), CLASS::IN, 1, RData::A(A { address: 1 }));
+    type Probe = Box<dyn FnOnce() + Send + 'static>;
+    let probes: Vec<(&str, Probe)> = vec![
+        ("SimpleMdnsResponder::add_resource", { let r = responder.clone(); let rr = probe_rr(); Box::new(move || r.lock().unwrap().add_resource(rr)) }),
+        ("SimpleMdnsResponder::remove_resource_record", { let r = responder.clone(); let rr = probe_rr(); Box::new(move || r.lock().unwrap().remove_resource_record(rr)) }),
+        ("ServiceDiscovery::get_known_services", { let (a, b, d) = (disc_a.clone(), disc_b.clone(), disc_d.clone()); Box::new(move || { let _ = a.get_known_services(); let _ = b.get_known_services(); let _ = d.get_known_services(); }) }),
+        ("ServiceDiscovery::announce", { let (a, b, d) = (disc_a.clone(), disc_b.clone(), disc_d.clone()); Box::new(move || { a.announce(false); b.announce(false); d.announce(false); }) }),
+        ("tokio SimpleMdnsResponder::add_resource", { let (r, h, rr) = (aresponder.clone(), handle.clone(), probe_rr()); Box::new(move || h.block_on(async { r.lock().await.add_resource(rr).await })) }),
+        ("tokio ServiceDiscovery::get_known_services", { let (d, e, h) = (adisc.clone(), adisc_e.clone(), handle.clone()); Box::new(move || { if let Ok(d) = &*d { let _ = h.block_on(d.get_known_services()); } if let Ok(e) = &*e { let _ = h.block_on(e.get_known_services()); } }) }),
     ];
-    for (what, r) in probes {
-        match r {
-            Ok(()) => ctx.count("level2_lock_health_probes_ok"),
-            Err(pn) => ctx.violation("store-stays-usable", &format!("api-unusable-after-traffic:{}", what), format!("{} panicked after the hostile traffic: {}", what, pn.message), json!({"family": "level2", "idx": idx})),
+    for (what, f) in probes {
+        let (tx, rx) = std::sync::mpsc::channel();
+        let _ = std::thread::Builder::new().name("verif-probe".into()).spawn(move || {
+            let r = monitor::guard(f);
+            let _ = tx.send(r);
+        });
+        match rx.recv_timeout(Duration::from_secs(10)) {
+            Ok(Ok(())) => ctx.count("level2_lock_health_probes_ok"),
+            Ok(Err(pn)) => ctx.violation("store-stays-usable", &format!("api-unusable-after-traffic:{}", what), format!("{} panicked after the hostile traffic: {}", what, pn.message), json!({"family": "level2", "idx": idx})),
+            Err(_) => ctx.violation("store-stays-usable", &format!("api-blocked-after-traffic:{}", what), format!("{} did not return within 10 s after the traffic: the shared store's lock is held or waited for forever", what), json!({"family": "level2", "idx": idx})),
         }
     }
     ctx.add("level2_datagrams_sent", sent);
